@@ -288,13 +288,20 @@ def gen_cases(rng, quick):
     cases.append(Case(far_small, kind='fixed:area-page-offset-overflow', export_id='r', area_page=True, bg=('white', (255, 255, 255, 255)), expect=0))
     cases.append(Case(probe, kind='fixed:stdout-write-panic', stdout=True, stdout_full=True, expect=1))
     # the remaining known classes (one deliberate probe each)
+    cases.append(Case(b'<svg %s width="40" height="30"><rect width="5" height="5"/></svg>' % NS.encode(),
+                      kind='fixed:target-alloc-abort', z='100000', expect=1))          # 4e6 x 3e6 pixels = 48 TB (943ffd6)
+    cases.append(Case(b'<svg %s width="40" height="30"><rect id="r" width="5" height="5"/></svg>' % NS.encode(),
+                      kind='fixed:target-alloc-abort', w='500000000', export_id='r', expect=1))     # 5e8 x 5e8
     cases.append(Case(b'<svg %s width="1" height="100"><rect width="1" height="100" fill="red"/></svg>' % NS.encode(),
                       kind='probe:wh-box-exceeded', w='1', h='1'))
     cases.append(Case(b'<svg %s width="100" height="101"><rect width="100" height="101" fill="red"/></svg>' % NS.encode(),
                       kind='probe:wh-box-exceeded', w='100', h='100'))
     ap = b'<svg %s width="40" height="40"><rect width="5" height="5" fill="blue"/><rect id="r" x="20" y="10" width="10" height="10" fill="red"/></svg>' % NS.encode()
-    cases.append(Case(ap, kind='probe:area-page-scaled-offset', export_id='r', area_page=True, z='2'))
-    cases.append(Case(ap, kind='probe:export-id-fit-scale', export_id='r', w='80'))
+    cases.append(Case(ap, kind='fixed:area-page-scaled-offset', export_id='r', area_page=True, z='2', expect=0))
+    cases.append(Case(ap, kind='fixed:area-page-scaled-offset', export_id='r', area_page=True, w='100', bg=('#10203080', (16, 32, 48, 128)), expect=0))
+    cases.append(Case(ap, kind='fixed:export-id-fit-scale', export_id='r', w='80', expect=0))
+    cases.append(Case(ap, kind='fixed:export-id-fit-scale', export_id='r', w='33', h='70', expect=0))
+    cases.append(Case(ap, kind='fixed:export-id-fit-scale', export_id='r', h='25', expect=0))
     return cases
 
 
@@ -422,7 +429,7 @@ def coq_opt_z(v):
     return "None" if v is None else "(Some (%d))" % v
 
 
-def coq_case(c, r, lib, observed_dims, produced):
+def coq_case(c, r, lib, observed_dims, produced, alloc_ok=True):
     """-> Coq tuple (args, env, code, dims, produced) or None when the case is outside the model"""
     w, h = c.num(c.w), c.num(c.h)
     syntax_ok = c.syntax_ok
@@ -457,7 +464,7 @@ def coq_case(c, r, lib, observed_dims, produced):
             node = "(NodeBox %s %s %s %s)" % tuple(qstr(v) for v in nd)
         content = "(%s, %s, %s, %s)%%Q" % tuple(qstr(v) for v in lib['content'])
     env = ("{| e_read_ok := %s; e_gunzip_ok := true; e_utf8_ok := true; e_xml_ok := true; e_tree := %s; e_ids := %d%%nat; "
-           "e_node := %s; e_content := %s; e_encode_ok := true; e_write_ok := %s |}" % (b(read_ok), tree, ids, node, content, b(write_ok)))
+           "e_node := %s; e_content := %s; e_alloc_ok := %s; e_encode_ok := true; e_write_ok := %s |}" % (b(read_ok), tree, ids, node, content, b(alloc_ok), b(write_ok)))
     dims = "None" if observed_dims is None else "(Some {| is_w := %d; is_h := %d |})" % observed_dims
     dw, dh = c.default_size()
     return "(%s, %s, (%d)%%Z, %s, %s, ((%d # 1)%%Q, (%d # 1)%%Q))" % (args, env, r['rc'] if isinstance(r['rc'], int) else -1, dims, b(produced), dw, dh)
@@ -655,7 +662,7 @@ def _run(ctx, rng, quick, binp, rb, ub, wd, proof_ok, res, broken):
             ctx.violation("resvg hangs (> 120 s): %s" % " ".join(r['argv'][:10]), rep)
             continue
         if rc not in (0, 1):
-            cls = crash_class(c, lib)
+            cls = crash_class(c, lib, rc, r['stderr'])
             text = "resvg crashed with exit status %s (%s): %s" % (rc, r['stderr'][:120].decode('utf-8', 'replace').strip().replace('\n', ' '), " ".join(r['argv'][:10]))
             if cls:
                 known_probe_hits.add(cls)
@@ -708,26 +715,19 @@ def _run(ctx, rng, quick, binp, rb, ub, wd, proof_ok, res, broken):
                 for k_, v_ in (('export_id', c.export_id), ('area_drawing', c.area_drawing), ('area_page', c.area_page), ('text', c.text or c.corpus_path and '/text/' in c.corpus_path), ('stdin', c.stdin), ('stdout', c.stdout)):
                     pix[k_] += 1 if v_ else 0
                 same = png['bytes_equal'] or (png['w'] == png['ew'] and png['h'] == png['eh'] and png['ndiff'] == 0)
-                scale_one = c.fit_spec() == 'o' or c.fit_spec() in ('z:1',)
                 if 'node-does-not-fill-canvas' in notes:
-                    text = "--export-id with %s: canvas is sized from the node but the node is scaled by the document fit (%s)" % (c.fit_spec(), notes)
-                    # also with -z: the document's rounded integer size can make the document scale differ from the node's own fit
-                    if c.fit_spec().split(':')[0] in ('w', 'h', 'wh', 'z'):
-                        known_probe_hits.add('export-id-fit-scale')
-                        ctx.known_or_violation('export-id-fit-scale', text, dict(rep, lib=png))
-                    else:
-                        ctx.violation(text, dict(rep, lib=png))
+                    ctx.violation("--export-id with %s: the exported node does not fill the canvas that was sized from it (%s)" % (c.fit_spec(), notes),
+                                  dict(rep, lib=png))
                 if not same:
                     text = ("PNG differs from the library rendering with the same options: %d pixels, max delta %d, tool %dx%d vs library %dx%d (%s)"
                             % (png['ndiff'], png['max'], png['w'], png['h'], png['ew'], png['eh'], " ".join(r['argv'][:8])))
-                    if c.area_page and c.export_id and 'scaled-offset' in notes and not scale_one:
-                        known_probe_hits.add('area-page-scaled-offset')
-                        ctx.known_or_violation('area-page-scaled-offset', text + " [" + notes + "]", dict(rep, lib=png))
-                    else:
-                        ctx.violation(text, dict(rep, lib=png))
+                    ctx.violation(text, dict(rep, lib=png))
         # ---- K: cli-dims (model of `process`), compared inside Coq
-        if isinstance(rc, int):
-            row = coq_case(c, r, lib if ('size' in lib) else None, dims if produced else None, produced)
+        # canvases of >= 1 TiB cannot be reserved anywhere (e_alloc_ok := false); between 2 GiB and 1 TiB it depends on the machine: skipped
+        t_ = target_size(c, lib)
+        nbytes = t_[0] * t_[1] * 4 if (t_ is not None and 0 < t_[0] <= MAX_PIXMAP_W) else 0
+        if isinstance(rc, int) and not ((1 << 31) <= nbytes < ALLOC_CLASS_BYTES):
+            row = coq_case(c, r, lib if ('size' in lib) else None, dims if produced else None, produced, alloc_ok=(nbytes < ALLOC_CLASS_BYTES))
             if row is not None:
                 coq_rows.append(row)
                 coq_idx.append(i)
@@ -759,6 +759,7 @@ def _run(ctx, rng, quick, binp, rb, ub, wd, proof_ok, res, broken):
 
     # ------------------------------------------------------------------ usvg binary == Tree::to_string
     usvg_oracle(ctx, rng, quick, binp, ub, wd)
+    stdin_chunk_oracle(ctx, rb, ub, wd, quick)
 
     ctx.add_sample(dict(op='cli-dims', argv=runs[0]['argv'][:12], exit=runs[0]['rc']))
     ctx.add_sample(dict(op='cli-dims', argv=runs[len(runs) // 2]['argv'][:12], exit=runs[len(runs) // 2]['rc']))
@@ -782,8 +783,35 @@ def _run(ctx, rng, quick, binp, rb, ub, wd, proof_ok, res, broken):
                                      searched=dict(cli_runs=len(cases))), found_input=False)
 
 
-def crash_class(c, lib):
-    """No crash of the tool is a known finding any more (the four panic classes are fixed in /repo): every crash is reported."""
+ALLOC_CLASS_BYTES = 1 << 40      # 1 TiB: no machine this runs on can back such a canvas
+
+
+def target_size(c, lib):
+    """the fitted target (w, h) of the canvas the tool allocates first, with exact fractions (None if unknown)"""
+    if 'size' not in lib:
+        return None
+    w, h, z = c.num(c.w), c.num(c.h), c.zq()
+    if c.export_id is not None:
+        nd = lib.get('node')
+        if not isinstance(nd, list):
+            return None
+        sw, sh = int_size(nd[2], nd[3])
+    else:
+        sw, sh = int_size(lib['size'][0], lib['size'][1])
+    if w is not None and h is not None:
+        rw = ceil_fr(Fraction(h * sw, sh))
+        return (w, ceil_fr(Fraction(w * sh, sw))) if rw >= w else (rw, h)
+    if w is not None:
+        return (w, ceil_fr(Fraction(w * sh, sw)))
+    if h is not None:
+        return (ceil_fr(Fraction(h * sw, sh)), h)
+    if z is not None:
+        return (round_haz(sw * z), round_haz(sh * z))
+    return (sw, sh)
+
+
+def crash_class(c, lib, rc=None, stderr=b''):
+    """No crash of the tool is a known finding (all panic / abort classes are fixed in /repo): every crash is reported."""
     return None
 
 
@@ -814,6 +842,37 @@ def usvg_oracle(ctx, rng, quick, binp, ub, wd):
             argv += ['--indent', 'tabs', '--shape-rendering', 'crispEdges']; wopts.append('indent=tabs'); lopts.append('sr=crispEdges')
         jobs.append(dict(path=f, argv=argv, lopts=';'.join(lopts) or '-', wopts=';'.join(wopts) or '-', mode=rng.below(6), idx=i,
                          prefill=(rng.below(2) == 0)))
+    # precision grid: {none, coordinates only, transforms only, both} x {0, 1, 3, 5, 8, 12} on documents with rotations / scales.
+    # The expected WriteOptions come from the DOCUMENTED defaults (8 / 8 = usvg::WriteOptions::default(), only the given option is
+    # overridden); the documented range is 2..8, anything else must be rejected.
+    tdocs = []
+    for k, body in enumerate([
+            '<g transform="rotate(33.3) scale(1.37 0.77)"><rect x="10.123456" y="7.654321" width="31.41592" height="12.71828" fill="green"/></g>'
+            '<path transform="matrix(0.59077936 0.3885612 -0.3885612 0.59077936 20.5 10.25)" d="M 1.234567 2.345678 L 30.98765 4.56789 L 12.3456 28.7654 Z"/>',
+            '<g transform="skewX(12.5) translate(3.14159 2.71828)"><circle cx="25.55555" cy="30.33333" r="11.11111" fill="blue" transform="scale(0.333333)"/></g>'
+            '<linearGradient id="lg" gradientTransform="rotate(17.77)"><stop offset="0" stop-color="red"/><stop offset="1" stop-color="blue"/></linearGradient>'
+            '<rect x="5" y="50" width="60.606" height="20.202" fill="url(#lg)" transform="rotate(-7.5 30 60)"/>']):
+        pth = os.path.join(wd, 'u-prec-%d.svg' % k)
+        with open(pth, 'w') as f:
+            f.write('<svg %s width="100" height="100">%s</svg>' % (NS, body))
+        tdocs.append(pth)
+    tdocs += [f for f in files if '/structure/transform/' in f][:2]
+    gi = 0
+    for pth in tdocs:
+        for which in ('none', 'c', 't', 'both'):
+            for pv in ((None,) if which == 'none' else (0, 1, 3, 5, 8, 12)):
+                argv, wopts = [], []
+                if which in ('c', 'both'):
+                    argv += ['--coordinates-precision', str(pv)]
+                    wopts.append('cp=%d' % pv)
+                if which in ('t', 'both'):
+                    tv = pv if which == 't' else (pv if pv in (0, 1, 12) else 10 - pv if 2 <= 10 - pv <= 8 else pv)
+                    argv += ['--transforms-precision', str(tv)]
+                    wopts.append('tp=%d' % tv)
+                bad = which != 'none' and not (2 <= pv <= 8)
+                jobs.append(dict(path=pth, argv=argv, lopts='-', wopts=';'.join(wopts) or '-', mode=0, idx=5000 + gi, must_fail=bad,
+                                 prefill=(gi % 5 == 0)))
+                gi += 1
     # failure behaviour
     for j, (data, what) in enumerate(MALFORMED):
         p = os.path.join(wd, 'u-bad-%d.svg' % j)
@@ -908,10 +967,140 @@ def usvg_oracle(ctx, rng, quick, binp, ub, wd):
     ctx.cov['usvg_equal'] = nok
 
 
+# ------------------------------------------------------------------------------------------------
+# stdin through a pipe whose writer delivers the bytes in several chunks ("stdin/stdout modes"; also part of C06's
+# "separate processes give the same bytes"): the result must equal the run on the same bytes given as a file
+# ------------------------------------------------------------------------------------------------
+BLOCK = 64 * 1024
+
+
+def chunk_doc(size):
+    """deterministic valid SVG of exactly `size` bytes (size >= 400): many small rects + a padding comment"""
+    head = '<svg %s width="64" height="48">' % NS
+    tail = '</svg>'
+    body = []
+    n = len(head) + len(tail)
+    i = 0
+    while True:
+        r = '<rect x="%d" y="%d" width="3" height="2" fill="#%06x"/>' % (i * 7 % 60, i * 5 % 44, (i * 2654435761) & 0xffffff)
+        if n + len(r) + 7 > size:
+            break
+        body.append(r)
+        n += len(r)
+        i += 1
+    pad = size - n
+    doc = head + ''.join(body) + ('<!--' + 'x' * (pad - 7) + '-->' if pad >= 7 else ' ' * pad) + tail
+    assert len(doc) == size, (len(doc), size)
+    return doc.encode()
+
+
+def chunkings(size, rng, k):
+    """lists of chunk lengths summing to size: first-byte split, last-byte split, around the 64 KiB block boundaries, small
+    pieces, random pieces"""
+    out = [[1, size - 1], [size - 1, 1], [size // 2, size - size // 2]]
+    for b in (BLOCK - 1, BLOCK, BLOCK + 1, 2 * BLOCK, 2 * BLOCK + 1):
+        if 0 < b < size:
+            out.append([b, size - b])
+    if size > BLOCK + 10:
+        out.append([BLOCK, 5, size - BLOCK - 5])
+    if size <= 3000:
+        out.append([1] * 3 + [size - 3])
+    for _ in range(k):
+        cuts = sorted(set(1 + rng.below(size - 1) for _ in range(1 + rng.below(4))))
+        out.append([b - a for a, b in zip([0] + cuts, cuts + [size])])
+    return out
+
+
+def run_chunked(binp, args, data, chunks, wd, outp, pause=0.03):
+    import threading
+    import time
+    p = subprocess.Popen([binp] + args, stdin=subprocess.PIPE, stdout=subprocess.PIPE, stderr=subprocess.PIPE, cwd=wd)
+
+    def writer():
+        pos = 0
+        try:
+            for n in chunks:
+                p.stdin.write(data[pos:pos + n])
+                p.stdin.flush()
+                pos += n
+                time.sleep(pause)
+            p.stdin.close()
+        except (BrokenPipeError, OSError):
+            pass
+    t = threading.Thread(target=writer)
+    t.start()
+    try:
+        so = p.stdout.read()
+        se = p.stderr.read()
+        rc = p.wait(timeout=120)
+    except subprocess.TimeoutExpired:
+        p.kill()
+        rc, so, se = 'timeout', b'', b''
+    t.join(10)
+    out = open(outp, 'rb').read() if os.path.exists(outp) else None
+    return rc, out, se
+
+
+def stdin_chunk_oracle(ctx, rb, ub, wd, quick, only=None):
+    """-> number of chunked runs.  Reports a violation (with tool, argv, document size and chunk lengths) when a run with
+    chunked stdin differs from the run on the same bytes given as a file."""
+    import concurrent.futures as cf
+    rng = ctx.rng
+    sizes = [420, 4096, BLOCK - 1, BLOCK, BLOCK + 1, 70000, 2 * BLOCK, 2 * BLOCK + 77, 200000] if not quick else \
+            [420, BLOCK, BLOCK + 1, 70000, 2 * BLOCK + 77]
+    jobs = []
+    for tool, binp, ext in (('resvg', rb, 'png'), ('usvg', ub, 'svg')):
+        for size in sizes:
+            data = chunk_doc(size)
+            inp = os.path.join(wd, 'chunk-%d.svg' % size)
+            if not os.path.exists(inp):
+                with open(inp, 'wb') as f:
+                    f.write(data)
+            ref_out = os.path.join(wd, 'chunk-%s-%d-ref.%s' % (tool, size, ext))
+            p = subprocess.run([binp, inp, ref_out], stdout=subprocess.PIPE, stderr=subprocess.PIPE, timeout=120, cwd=wd)
+            ref = (p.returncode, open(ref_out, 'rb').read() if os.path.exists(ref_out) else None)
+            for ci, ch in enumerate(chunkings(size, rng, 1 if quick else 4)):
+                jobs.append((tool, binp, ext, size, data, ch, ref, ci))
+    if only:
+        jobs = [j for j in jobs if only(j)]
+
+    def work(j):
+        tool, binp, ext, size, data, ch, ref, ci = j
+        outp = os.path.join(wd, 'chunk-%s-%d-%d.%s' % (tool, size, ci, ext))
+        rc, out, se = run_chunked(binp, ['--resources-dir', wd, '-', outp], data, ch, wd, outp)
+        return rc, out, se
+    with cf.ThreadPoolExecutor(max_workers=12) as ex:
+        results = list(ex.map(work, jobs))
+    nbad = 0
+    for j, (rc, out, se) in zip(jobs, results):
+        tool, binp, ext, size, data, ch, ref, ci = j
+        ctx.note_case("stdin-chunks/%s/%d/%s" % (tool, size, ch), nontrivial=(rc == 0))
+        if ref[0] != 0 or ref[1] is None:
+            if nbad < 3:
+                ctx.violation("%s fails on a valid %d-byte document given as a file (exit %s)" % (tool, size, ref[0]),
+                              dict(kind='stdin-chunks', tool=tool, doc_size=size, chunks=None))
+            nbad += 1
+            continue
+        if (rc, out) != ref:
+            nbad += 1
+            if nbad <= 3:
+                ctx.violation("%s reading stdin from a pipe that delivers a %d-byte document in chunks %s differs from the run on the same bytes "
+                              "as a file: exit %s vs %s, output %s vs %s bytes (%s)"
+                              % (tool, size, ch if len(ch) < 8 else ch[:8] + ['...'], rc, ref[0], None if out is None else len(out), len(ref[1]),
+                                 se[:100].decode('utf-8', 'replace').strip()),
+                              dict(kind='stdin-chunks', tool=tool, argv=['--resources-dir', '<wd>', '-', '<out>'], doc_size=size, chunks=ch,
+                                   pause_s=0.03, document='chunk_doc(%d) of tools/props/c20.py' % size, exit=rc, expected_exit=ref[0],
+                                   stderr=se[:300].decode('utf-8', 'replace')))
+    ctx.cov['stdin_chunk_runs'] = len(jobs)
+    return len(jobs)
+
+
 def replay(ctx, path):
     r = json.load(open(path))
     print(json.dumps({k: v for k, v in r.items() if k != 'replay'}, indent=1))
     rp = r.get('replay', {})
+    if rp.get('kind') == 'stdin-chunks' and rp.get('chunks'):
+        return replay_chunks(ctx, rp)
     if 'argv' not in rp:
         print(json.dumps(rp, indent=1)[:6000])
         return 0
@@ -971,3 +1160,37 @@ def replay(ctx, path):
     finally:
         shutil.rmtree(wd, ignore_errors=True)
     return 0
+
+
+def replay_chunks(ctx, rp):
+    rb, ub, log = build_cli(ctx)
+    if rb is None:
+        print("binaries do not build:\n" + log[-1500:])
+        return 1
+    wd = os.path.join(ctx.workdir, 'replay-chunks')
+    shutil.rmtree(wd, ignore_errors=True)
+    os.makedirs(wd)
+    try:
+        tool = ub if rp.get('tool') == 'usvg' else rb
+        ext = 'svg' if rp.get('tool') == 'usvg' else 'png'
+        data = chunk_doc(rp['doc_size'])
+        inp = os.path.join(wd, 'in.svg')
+        with open(inp, 'wb') as f:
+            f.write(data)
+        ref_out = os.path.join(wd, 'ref.' + ext)
+        p = subprocess.run([tool, inp, ref_out], stdout=subprocess.PIPE, stderr=subprocess.PIPE, timeout=120, cwd=wd)
+        ref = open(ref_out, 'rb').read() if os.path.exists(ref_out) else None
+        print("%s in.svg ref.%s   (document: chunk_doc(%d)): exit %s, %s bytes" % (rp.get('tool'), ext, rp['doc_size'], p.returncode, None if ref is None else len(ref)))
+        bad = 0
+        for k in range(5):
+            outp = os.path.join(wd, 'out%d.%s' % (k, ext))
+            rc, out, se = run_chunked(tool, ['--resources-dir', wd, '-', outp], data, rp['chunks'], wd, outp, rp.get('pause_s', 0.03))
+            same = (rc == p.returncode and out == ref)
+            bad += 0 if same else 1
+            print("run %d: %s --resources-dir <wd> - out.%s with stdin written in chunks %s: exit %s, %s bytes, %s %s"
+                  % (k, rp.get('tool'), ext, rp['chunks'], rc, None if out is None else len(out), 'same as file input' if same else 'DIFFERS',
+                     se[:120].decode('utf-8', 'replace').strip()))
+        print("REPRODUCED" if bad else "not reproduced")
+        return 1 if bad else 0
+    finally:
+        shutil.rmtree(wd, ignore_errors=True)
